@@ -389,7 +389,7 @@ class Report:
             json.dump(replay_doc, f)
         self.violations.append((signature, text, path, [1]))
 
-    def finish(self, rule, trusted=None, exhaustive=False, explanation=None):
+    def finish(self, rule, trusted=None, exhaustive=False, explanation=None, write_evidence=True):
         wall = time.time() - self.t0
         cov = self.cov
         cov["rule"] = rule
@@ -402,9 +402,10 @@ class Report:
             cov["samples"] = ["(no sample recorded)"]
         ev = {"property_id": self.pid, "tier": self.tier, "seed": self.seed, "level": self.level, "coverage": cov,
               "assumptions": self.assumptions, "wall_s": round(wall, 2), "violations": getattr(self, "nviol", 0)}
-        os.makedirs(f"{ROOT}/evidence", exist_ok=True)
-        with open(f"{ROOT}/evidence/{self.pid}.json", "w") as f:
-            json.dump(ev, f, indent=1)
+        if write_evidence:
+            os.makedirs(f"{ROOT}/evidence", exist_ok=True)
+            with open(f"{ROOT}/evidence/{self.pid}.json", "w") as f:
+                json.dump(ev, f, indent=1)
         for sig, what in self.known_hits:
             print(f"KNOWN-FINDING: property={self.pid} {sig} {what}")
         if self.errors:
